@@ -51,6 +51,7 @@ func subSend() mon.Sub {
 			bs := bufsz[c.Rng.Intn(len(bufsz))]
 			other := c.Rng.Intn(3) // 0 no other extension, 1 RSV3-setter before, 2 after
 			resetOp := c.Rng.Intn(2) == 0
+			reattach := c.Rng.Intn(3) // with ResetOp: 0 attach once, 1 re-attach the same state per message, 2 a fresh state per message
 			dst := xport.NewRec()
 			ms := &wsflate.MessageState{}
 			rsv3 := wsutil.SendExtensionFunc(func(h ws.Header) (ws.Header, error) {
@@ -91,6 +92,22 @@ func subSend() mon.Sub {
 				ms.SetCompressed(m.compressed)
 				if resetOp {
 					w.ResetOp(ws.OpCode(m.op))
+					if reattach > 0 {
+						// the application attaches the state before every message (ResetOp keeps the list, and
+						// SetExtensions SETS it): the same state again, or a fresh per-message state
+						if reattach == 2 {
+							ms = &wsflate.MessageState{}
+							ms.SetCompressed(m.compressed)
+						}
+						switch other {
+						case 0:
+							w.SetExtensions(ms)
+						case 1:
+							w.SetExtensions(rsv3, ms)
+						case 2:
+							w.SetExtensions(ms, rsv3)
+						}
+					}
 				} else {
 					w.Reset(dst, st, ws.OpCode(m.op))
 					switch other {
